@@ -952,7 +952,7 @@ Qed.
 Lemma rc_contains_lstrip d s : contains_char d s = false -> contains_char d (lstrip_sp s) = false.
 Proof.
   induction s as [|a r IH]; intro H; [reflexivity|]. cbn [lstrip_sp].
-  destruct (Ascii.eqb a " "); [|exact H].
+  destruct (py_isspace a); [|exact H].
   cbn [contains_char] in H. apply orb_false_elim in H. apply IH. apply H.
 Qed.
 
